@@ -197,7 +197,11 @@ theorem attrs_asc (E : Ext) (ns : List String) (ts : List Ty) (os : List Bool) :
     obtain ⟨v, vs', hv, hvs, rfl⟩ := unmarshalZip_cons h
     have ⟨ha', hk⟩ := Ty.strictAsc_cons ha
     obtain ⟨o, ho⟩ := hfind k t2 (by simp)
-    simp only [strItems, unmarshalAttrs, decString, ho, hv]
+    have hnc : accK.contains k = false := by
+      simp only [List.contains_eq_mem, decide_eq_false_iff_not]
+      intro hm
+      exact String.lt_irrefl _ (hlt k hm k (by simp))
+    simp only [strItems, unmarshalAttrs, decString, ho, hv, hnc, Bool.false_eq_true, if_false]
     rw [insertKV_append k v accK accV hla (fun a haa => hlt a haa k (by simp))]
     simp only []
     rw [attrs_asc E ns ts os ks its ts2 vs' (accK ++ [k]) (accV ++ [v]) hvs (by simpa using hl) (by simpa using hl2)
@@ -264,7 +268,7 @@ theorem child_rt (E : Ext) (p : Payload) (ih : RTP E p) (ce ve : Ty) (hce : ce.w
       cases ce <;> simp_all [Ty.isDyn]
     subst hced
     refine ⟨.arr [.binj j, it0], by rw [hci]; simp [wrapDyn, hj1, hm], p', ?_, ha⟩
-    simp [unmarshal, hj2, hu]
+    simp [unmarshal, typeOfJson, hj2, hu]
   · simp only [hw, if_false] at hfit
     have hci : childItem E ce ve p = marshalP E ve p ce := by
       cases p <;> simp [childItem, hw, fitsP_not_marked] at hfit ⊢
